@@ -383,9 +383,9 @@ fn run_op(op: &str, toks: &[&str]) -> (String, Vec<String>) {
         "qaxis" => {
             let x = parse_u32s(toks);
             let out = qb(Quat::from_axis_angle(v3(&x[0..3]), fb(x[3])));
-            // a finite axis and angle describe a rotation: a NaN component is not a documented sentinel
+            // a finite axis and angle describe a rotation: a NaN or infinite component is not a documented sentinel
             if x.iter().all(|b| finite(*b)) {
-                chk(out.iter().all(|b| fb(*b) == fb(*b)), "quat-from_axis_angle-nan-from-finite-input");
+                chk(out.iter().all(|b| finite(*b)), "quat-from_axis_angle-nan-from-finite-input");
             }
             hx(&out)
         }
@@ -576,6 +576,16 @@ fn stream(seed: u64, n: usize) {
         let mut o: Vec<u32> = Vec::new();
         o.extend(qb(qa.multiply(&qc))); o.extend(qb(qa.normalize())); o.extend(qb(Quat::from_axis_angle(va, fb(m[14])))); o.extend(mb(qa.to_mat4()));
         f.put("quat_finite", &o);
+        // from_axis_angle is total on every finite axis (squared length may overflow): arbitrary finite magnitudes
+        let big: Vec<u32> = (0..3).map(|_| loop { let b = gen_bits(&mut r); if finite(b) { break b; } }).collect();
+        let qa2 = catch_unwind(AssertUnwindSafe(|| qb(Quat::from_axis_angle(v3(&big), fb(m[14])))));
+        match qa2 {
+            Ok(o) => {
+                if !o.iter().all(|b| finite(*b)) { fail("quat-from_axis_angle-nan-from-finite-input"); }
+                f.put("quat_any_finite_axis", &o);
+            }
+            Err(_) => { fail("quat-from_axis_angle-nan-from-finite-input"); f.put("quat_any_finite_axis", &[0xdead_beef]); }
+        }
         let (ma, mc) = (m16(&m[6..22]), m16(&m[22..38]));
         let mut o: Vec<u32> = Vec::new();
         o.extend(mb(ma.multiply(&mc))); o.extend(f3(ma.transform_point(&va))); o.extend(f3(ma.transform_direction(&vb)));
